@@ -49,6 +49,7 @@ def setup(ctx):
     for be in common.BACKENDS:
         jobs.append(("rich%s.in" % be, common.igate_job("rich", {"rich.h": rich}, ["rich.h"], be, channels=("oc", "od"), opts=["-unique-names"] if be == "-c" else [])))
     jobs.append(("rich-odonly.in", common.igate_job("rich", {"rich.h": rich}, ["rich.h"], "-python-native", channels=("od",))))
+    _gen_real_universes(ctx, env)
     for name, job in jobs:
         root = runner.fresh_dir("dbreal")
         common.materialise(job, root)
@@ -61,6 +62,55 @@ def setup(ctx):
         with open(os.path.join(REAL_DIR, name), "wb") as f:
             f.write(data)
         common.cleanup(root)
+
+
+REAL_UNIVERSES = []      # [[file names relative to REAL_DIR]] -- multi-library sets produced by the real interrogate from generated headers
+
+
+def _gen_real_universes(ctx, env):
+    """k libraries with a seeded cross-library derivation/typedef graph (the modsim header generator), run through the real interrogate."""
+    from . import modsim
+    global REAL_UNIVERSES
+    REAL_UNIVERSES = []
+    n = 6 if ctx.tier == "quick" else 40
+    for ui in range(n):
+        rng = run_rng(ctx.seed, NAME + "/realuni", ui)
+        kind = rng.choice(["chain", "dag", "diamond", "forest", "dag"])
+        k = rng.range(4 if kind == "diamond" else 2, 5)
+        names = modsim.lib_names(rng, k)
+        edges = modsim.gen_graph(rng, k, kind)
+        files = modsim.real_headers(rng, names, edges, set())
+        root = runner.fresh_dir("dbrealuni")
+        for rel, text in files.items():
+            p = os.path.join(root, "src", rel)
+            os.makedirs(os.path.dirname(p), exist_ok=True)
+            with open(p, "w") as f:
+                f.write(text)
+        os.makedirs(os.path.join(root, "db"))
+        out = []
+        ok = True
+        for u in range(k):
+            argv = [build.tool("rel", "interrogate"), "-od", "db/%s.in" % names[u], "-oc", "db/%s.cxx" % names[u], "-module", "mod", "-library", names[u],
+                    rng.choice(["-python-native", "-python-native", "-c", "-python"]), "-D__cplusplus", "-S" + common.PARSER_INC]
+            for v in range(k):
+                if v != u:
+                    argv += ["-I", "src/" + names[v]]
+            argv += ["-srcdir", "src/" + names[u], names[u] + ".h"]
+            r = runner.run_tool(argv, cwd=root, env=env)
+            if r.status != 0:
+                ok = False
+                break
+            data = runner.read_file(os.path.join(root, "db", names[u] + ".in"))
+            if F.serialise(F.parse(data)) != data:
+                raise SystemExit("dbsim: independent reader/writer does not reproduce a generated real database")
+            d = os.path.join(REAL_DIR, "u%d" % ui)
+            os.makedirs(d, exist_ok=True)
+            with open(os.path.join(d, names[u] + ".in"), "wb") as f:
+                f.write(data)
+            out.append("u%d/%s.in" % (ui, names[u]))
+        common.cleanup(root)
+        if ok:
+            REAL_UNIVERSES.append(out)
 
 
 def _start_worker(kind):
@@ -123,7 +173,7 @@ def gen_c12(ctx):
         u = {"seed": rng.next(), "k": 1, "size": rng.choice([1, 2, 4, 8, 20 if thorough else 8]), "shared": 0, "minors": [rng.choice([0, 1, 2, 3])], "alt": rng.chance(1, 4)}
         how = rng.choice(["db", "mod", "mod"])
         add(u, {}, _regs(rng, [0], how) + [{"op": "roundtrip", "sweep": n % 3 == 0}])
-    reals = sorted(os.listdir(REAL_DIR))
+    reals = sorted(x for x in os.listdir(REAL_DIR) if x.endswith(".in"))
     for name in reals:
         add({"real": [name]}, {}, [{"op": "reg_db", "lib": 0}, {"op": "roundtrip", "sweep": True}])
         add({"real": [name]}, {}, [{"op": "reg_db", "lib": 0}, {"op": "roundtrip", "sweep": True}], "rel")
@@ -187,6 +237,10 @@ def gen_c13(ctx, focus="C13"):
         if n % 8 == 7:
             u = {"real": ["liba.in", "libb.in", "libc.in"]}
             k = 3
+        elif n % 8 == 3 and REAL_UNIVERSES:
+            files = REAL_UNIVERSES[(n // 8) % len(REAL_UNIVERSES)]
+            u = {"real": files}
+            k = len(files)
         else:
             k = rng.choice([1, 2, 2, 3, 3, 4, 5])
             u = {"seed": rng.next(), "k": k, "size": rng.choice([2, 3, 5]), "shared": rng.choice([1, 2, 3, 4]), "minors": [3] if rng.chance(2, 3) else [0, 1, 2, 3], "alt": False}
